@@ -6,6 +6,7 @@ package main
 
 import (
 	"context"
+	"errors"
 	"fmt"
 	"sort"
 	"strings"
@@ -72,6 +73,8 @@ type world struct {
 }
 
 const ackTimeout = 60 * time.Second
+
+var errEpisodeOver = errors.New("episode ended after an oracle failure")
 
 func (w *world) marker() string { w.nMark++; return fmt.Sprintf("m%d-%d", w.epi, w.nMark) }
 func (w *world) newRID() string { w.nRID++; return fmt.Sprintf("r%d", w.nRID) }
@@ -341,6 +344,11 @@ func (w *world) step(u *upd, tag string) (*stepRec, error) {
 	}
 	// the wire view and the snapshot must describe the same state (sanity of the harness' own reading)
 	if d := diffViews(viewOf(before, w.litOf), vBefore, false); d != "" {
+		if len(res.Failures) > 0 {
+			// an earlier step of this episode already failed the oracle (e.g. a listed message cannot be fetched): the
+			// episode ends here, the failure is what gets reported
+			return nil, fmt.Errorf("%w: %s", errEpisodeOver, d)
+		}
 		return nil, fmt.Errorf("snapshot and wire view disagree before the step: %s", d)
 	}
 	w.reviveObservers(before)
@@ -482,15 +490,21 @@ func runC06(ctx *common.Ctx) error {
 	res := ctx.Res
 	res.Rule = "sequences of connector updates of all 12 kinds (valid, unknown ids, recovery mailbox, name clashes) pushed through the connector channel of a running server, each successful one replayed as a fresh object, plus updates restating the current state (echo) after client commands; non-trivial = distinct (state, update) pairs that are replays/restatements or valid updates that change the view"
 	em := &emitter{}
-	if err := scripted(ctx, em); err != nil {
+	over := func(err error) error {
+		if errors.Is(err, errEpisodeOver) {
+			return nil
+		}
 		return err
 	}
-	if err := bigBatch(ctx, em); err != nil {
+	if err := over(scripted(ctx, em)); err != nil {
+		return err
+	}
+	if err := over(bigBatch(ctx, em)); err != nil {
 		return err
 	}
 	n := ctx.Budget(8, 40)
 	for e := 0; e < n; e++ {
-		if err := randomEpisode(ctx, em, e+1, ctx.Budget(30, 60)); err != nil {
+		if err := over(randomEpisode(ctx, em, e+1, ctx.Budget(30, 60))); err != nil {
 			return err
 		}
 	}
